@@ -60,7 +60,7 @@ LAWS = [
 DATE_LAWS = [("todate|fromdate", "(todate | fromdate) == ."), ("gmtime|mktime", "(gmtime | mktime) == .")]
 
 VALUES = [None, True, False, 0, 1, -1, 2 ** 53, -(2 ** 63), 10 ** 20, 0.5, -2.25, 1e17, 1.25e-7,
-          "\u0080", "x\u0080y", "\u007f\u0080\u07ff\u0800\uffff\U00010000\U0010ffff", "\u00ff", "\ud7ff\ue000", "", "a", "a,b", ",", ",,a,", "abab", "ab", "é", "aéb", "日本語", "\u0000", "a\"b\\c", "\n\t", "\u007f", " +%2B&=?/", "\U0001F600", "%", "a b", "=", "YQ==",
+          "\u0080", "x\u0080y", "\u007f\u0080\u07ff\u0800\uffff\U00010000\U0010ffff", "\u00ff", "\ud7ff\ue000", "", "a", "a,b", ",", ",,a,", "abab", "ab", "é", "aéb", "日本語", "\u0000", "a\"b\\c", "\n\t", "\u007f", " +%2B&=?/", "\U0001F600", "%", "a b", "a b c", "  ", " a  b ", "+ +", "a+b c d+ e", "%20 %2B  +", "=", "YQ==",
           [], [[]], [1, [2, [3]]], [None, False], {}, {"": 1}, {"a": {}}, {"a": [], "b": {"c": None}}, {"é": "x", "a\"b": 1, "\n": [1]}, {"a b": {"": {"k": [1, {"z": 2}]}}},
           [{"a": 1}, {"b": [2, 3]}], {"a": [{"b": 1}, {"c": {"d": [1, 2]}}]}, [[], {}, [[]], [{}]], {"k": [0, {"z": 5}]},
           # every class of character as an object KEY (keys are written by their own code path): C0 controls with and without a short escape, DEL, C1, line separators, non-printable astral, noncharacters
